@@ -104,6 +104,11 @@ class PInner(Inner):  # an ordinary (undecorated) subclass of a spec class, used
 class Flex:
     size: int = 0
 
+@spec_class(key="k")
+class HiddenKey:
+    k: str = Attr(default="auto", init=False)   # a key the constructor does not initialise
+    v: int = 0
+
 @spec_class
 class Outer:
     child: PInner
@@ -151,6 +156,28 @@ def directed_cases(ctx):
         if not good:
             ctx.violation("advertised_parameter_reaches_behaviour", f"Outer.{label} (nested type: plain subclass of a spec class) gave {safe_repr(got, 100)}",
                           features={"kind": "directed", "nested": "plain_subclass", "verb": label.split("_")[0]}, case=["directed", label])
+    # a key declared init=False is not a constructor parameter: not advertised, and rejected like any other unadvertised name
+    HK = ns["HiddenKey"]
+    HK.__spec_class__  # (first use: lazily bootstrapped)
+    sig = inspect.signature(HK.__init__)
+    ctx.count("directed_cases")
+    ctx.count("calls_judged")
+    if "k" in sig.parameters:
+        try:
+            got = HK("given").k
+        except TypeError:
+            got = "TypeError"
+        if got != "given":
+            ctx.violation("advertised_parameter_reaches_behaviour", f"HiddenKey.__init__{sig} advertises the init=False key `k`, but HiddenKey('given').k -> {got!r}",
+                          features={"kind": "directed", "nested": "init_false_key", "verb": "__init__"}, case=["directed", "init_false_key"])
+    else:
+        for args, kw in ((("given",), {}), ((), {"k": "given"})):
+            ctx.count("calls_judged")
+            try:
+                HK(*args, **kw)
+                ctx.violation("unadvertised_rejected", f"HiddenKey.__init__{sig} does not advertise `k`, yet HiddenKey(*{args}, **{kw}) was accepted", features={"kind": "directed", "nested": "init_false_key", "verb": "__init__"}, case=["directed", "init_false_key", list(args)])
+            except TypeError:
+                pass
     # overflow keywords: a sequence of calls with *different* keyword names on the same helper
     seqs = [
         [{"colour": "red"}, {"size": 3}, {"size": 4, "shade": 1}, {"colour": "blue", "depth": 2}, {}],
